@@ -223,8 +223,18 @@ impl Run {
         }
     }
 
+    /// The tower has noticed the outage: its own flag says so, or (independently of what the tower does with it) the node is
+    /// still down and has refused one of the tower's RPCs since the outage was armed - the Carrier got a transport error, which
+    /// is the moment from which the API must refuse new work.
     fn tower_knows_down(&self) -> bool {
-        !*self.w.reachable.0.lock().unwrap()
+        if !*self.w.reachable.0.lock().unwrap() {
+            return true;
+        }
+        if !self.link.load(Ordering::SeqCst) || self.wire_mark < 0 {
+            return false;
+        }
+        let st = self.w.node.0.lock().unwrap();
+        st.wire.iter().skip(self.wire_mark as usize).any(|e| !e.3)
     }
 
     fn step(&mut self, s: &Step, idx: usize) {
